@@ -78,7 +78,7 @@ def describe() -> dict:
             "junk, snippets listing order, output-dir location (plain/deep/space+unicode/"
             "relative), output-dir history (absent/empty/foreign files/same-named longer "
             "files) and position of the case in the process; compared: rc, stdout up to the "
-            "output path, stderr, sha256 of every file the run wrote. distinct = distinct "
+            "output path, stderr, sha256 of every file the run wrote; one evaluation = one execution of a case in one interpreter. distinct = distinct "
             "cases whose results were compared across >= 2 interpreters."
         ),
         "real": ["aas_core_codegen in fresh interpreters (real PYTHONHASHSEED randomisation)",
